@@ -774,7 +774,7 @@ Section ConcP.
   Qed.
 
   Lemma conc_discipline_flags : forall x, conc_discipline x = true -> discipline (conc_flags x) = true.
-  Proof. intros x H. unfold conc_discipline in H. apply andb_prop in H as [H _]. exact H. Qed.
+  Proof. intros x H. unfold conc_discipline in H. do 3 (apply andb_prop in H as [H _]). exact H. Qed.
 End ConcP.
 
 (** *** what the discipline buys: witnesses on a concrete instance.
